@@ -14,6 +14,15 @@ CHECKS = {
    ref='3/C17'),
 }
 
+CHECKS['C06'] = dict(
+   text='Loop-free symbolic execution of to_raw/from_raw of all units the real enum declares, on one symbolic value: z3 (QF_LRA) compares every ordered pair with '
+        'an independent table of exact SI rationals (1e-6 relative), and proves round trips and A->B->C = A->C under the standard floating point rounding model '
+        '(every symbolic operation gets its own error term), for all values in the stated magnitude range.',
+   note='Factor claims: floats as reals. Round trip / composition: standard model fl(x op y)=(x op y)(1+d), |d|<=2^-53, no overflow/underflow (|v| in [1e-100,1e100]); bounds 16 / 32 * 2^-53 '
+        '(temperatures 24 / 32 * 2^-53 of |v|+600). Angles strictly inside one turn (|rad| <= 6.28). Outside: round trips through the two tangent-based units; NaN/inf. '
+        'Trusted: ref/si.py table, z3.',
+   ref='3/C06')
+
 NOT_YET = {}
 
 def main():
